@@ -365,18 +365,54 @@ def resolveAt (inflate : Bytes → Option (Bytes × Bytes)) (hs : Nat) (lookup :
                 | .error x => .error x
                 | .ok out => .ok (bty, out)
 
+/-- Python `data[-k:]` (for `k = 0` that is the *whole* of `data`). -/
+def pyTakeLast (k : Nat) (d : Bytes) : Bytes := if k = 0 then d else d.drop (d.length - k)
+
+/-- Python `data[:-k]` (for `k = 0` that is empty). -/
+def pyDropLast (k : Nat) (d : Bytes) : Bytes := if k = 0 then [] else d.take (d.length - k)
+
+/-! ## how the readers walk a zlib stream (`read_zlib_chunks_at`, `read_zlib_chunks`)
+
+zlib is abstracted to the one fact these loops use: the stream that starts at the beginning of `buf`
+occupies exactly its first `L` bytes; after the reader has handed zlib `c` bytes in total, `unused_data`
+holds the `c - L` bytes past the end (empty while `c ≤ L`, in particular when `c = L`) and `eof` is
+`c ≥ L`.  What the loops accumulate — the bytes fed to `binascii.crc32` and kept as `comp_chunks` — and
+the end offset they report must not depend on the slice size. -/
+
+/-- `read_zlib_chunks_at(contents, offset, …, buffer_size = B)` on `buf = contents[offset:]`:
+`add = view[pos : pos + B]; pos += len(add); …; if unused: left = len(unused); pos -= left; add = add[:-left]`
+then CRC/`comp_chunks` take `add`, and the loop ends `if unused`.  Returns (bytes fed, end position).
+`endsOnUnused = 1` is that code; `0` is the variant that tests `decomp_obj.eof` instead (then `left` can
+be 0 and Python's `add[:-0]` is empty).  `none` = `zlib.error("EOF before end of zlib stream")`. -/
+def zlibWalkAt (endsOnUnused B L : Nat) (buf : Bytes) : Nat → Nat → Bytes → Option (Bytes × Nat)
+  | 0, _, _ => none
+  | fuel + 1, pos, fed =>
+    let add := slice buf pos B
+    if add.isEmpty then none
+    else
+      let pos' := pos + add.length
+      let left := pos' - L
+      let done := if endsOnUnused = 1 then decide (0 < left) else decide (L ≤ pos')
+      if done then some (fed ++ pyDropLast left add, pos' - left)
+      else zlibWalkAt endsOnUnused B L buf fuel pos' (fed ++ add)
+
+/-- `read_zlib_chunks(read_some, …)`: the chunks are whatever `read_some(buffer_size)` returns.  Returns
+(bytes fed to CRC / kept as `comp_chunks`, the `unused` bytes handed back to the caller). -/
+def zlibWalkStream (L : Nat) : List Bytes → Nat → Bytes → Option (Bytes × Bytes)
+  | [], _, _ => none
+  | add :: rest, cum, fed =>
+    if add.isEmpty then none
+    else
+      let left := cum + add.length - L
+      if 0 < left then some (fed ++ pyDropLast left add, pyTakeLast left add)
+      else zlibWalkStream L rest (cum + add.length) (fed ++ add)
+
 /-! ## trailer tracking (`PackStreamReader._read`) -/
 
 structure TrailerState where
   hashed : Bytes            -- everything passed to `self.sha.update` so far
   trailer : Bytes           -- the deque of the last `hash_size` bytes
   deriving DecidableEq, Repr
-
-/-- Python `data[-k:]` (for `k = 0` that is the *whole* of `data`). -/
-def pyTakeLast (k : Nat) (d : Bytes) : Bytes := if k = 0 then d else d.drop (d.length - k)
-
-/-- Python `data[:-k]` (for `k = 0` that is empty). -/
-def pyDropLast (k : Nat) (d : Bytes) : Bytes := if k = 0 then [] else d.take (d.length - k)
 
 /-- One call of `_read` that returned `data`. -/
 def feed (hs : Nat) (s : TrailerState) (data : Bytes) : TrailerState :=
